@@ -255,30 +255,26 @@ Qed.
 
 (* ---- the handlers: the store is reached only through a successful check ---- *)
 
-(* Proceed v f a: v,f are parseURLPath's reading of the path, the check passed on them; a is, for a read,
-   what NewVolumeId / ParsePath make of v / f; for an upload the needle CreateNeedleFromRequest built
-   from its own reading of the path, which equals ParsePath f; for a delete whatever the two parsers
-   left behind, errors ignored *)
+(* Proceed v f a: v,f are parseURLPath's reading of the path, the check passed on them; a is, for EVERY
+   method (reads, uploads and - since the repair of DeleteHandler - deletes), what NewVolumeId / ParsePath
+   make of v / f, both without error; for an upload the needle CreateNeedleFromRequest built from its own
+   reading of the path equals ParsePath f *)
 Theorem proceed_authorized : forall tab cfg rq v f a, handle tab cfg rq = Proceed v f a ->
   parse_url_path (rq_path rq) = Some (v, f) /\
   check_jwt tab cfg (is_write_method (rq_method rq)) rq v f = true /\
-  (is_delete (rq_method rq) = false ->
-     exists vol id ck, parse_vid v = Some vol /\ parse_path f = Some (id, ck) /\ a = (vol, id, ck)) /\
+  (exists vol id ck, parse_vid v = Some vol /\ parse_path f = Some (id, ck) /\ a = (vol, id, ck)) /\
   (is_upload (rq_method rq) = true ->
      exists u, upload_fid (rq_path rq) = Some u /\ parse_path u = parse_path f) /\
-  (is_delete (rq_method rq) = true ->
-     a = (match parse_vid v with Some x => x | None => 0%N end,
-          fst (fst (parse_path_st f)), snd (fst (parse_path_st f)))) /\
   (is_write_method (rq_method rq) = true -> rq_public rq = false /\ whitelist_blocks cfg rq = false).
 Proof.
   intros tab cfg rq v f a H. unfold handle in *.
-  destruct (rq_method rq) eqn:Em; cbn [is_delete is_upload is_write_method].
+  destruct (rq_method rq) eqn:Em; cbn [is_upload is_write_method].
   1,2: unfold get_or_head in H; destruct (parse_url_path (rq_path rq)) as [[vid fid]|]; [|discriminate];
        destruct (check_jwt tab cfg false rq vid fid) eqn:Ec; simpl in H; [|discriminate];
        destruct (parse_vid vid) as [vol|] eqn:Ev; [|discriminate];
        destruct (parse_path fid) as [[id ck]|] eqn:Ep; [|discriminate];
        injection H as <- <- <-; repeat split; auto; try discriminate;
-       intros _; exists vol, id, ck; rewrite Ev; auto.
+       exists vol, id, ck; rewrite Ev; auto.
   1,2: destruct (rq_public rq); [discriminate|]; destruct (whitelist_blocks cfg rq); [discriminate|];
        unfold post in H; destruct (parse_url_path (rq_path rq)) as [[vid fid]|]; [|discriminate];
        destruct (parse_vid vid) as [vol|] eqn:Ev; [|discriminate];
@@ -289,11 +285,14 @@ Proof.
        destruct ((id =? uid) && (ck =? uck))%N eqn:Ee; [|discriminate];
        apply andb_true_iff in Ee; destruct Ee as [E1 E2]; apply N.eqb_eq in E1, E2; subst uid uck;
        injection H as <- <- <-; repeat split; auto; try discriminate;
-       [intros _; exists vol, id, ck; rewrite Ev, Ep; auto | intros _; exists u; rewrite Ep; auto].
+       [exists vol, id, ck; rewrite Ev, Ep; auto | intros _; exists u; rewrite Ep; auto].
   destruct (rq_public rq); [discriminate|]. destruct (whitelist_blocks cfg rq); [discriminate|].
   unfold delete in H. destruct (parse_url_path (rq_path rq)) as [[vid fid]|]; [|discriminate].
   destruct (check_jwt tab cfg true rq vid fid) eqn:Ec; simpl in H; [|discriminate].
-  injection H as <- <- <-. repeat split; auto; discriminate.
+  destruct (parse_vid vid) as [vol|] eqn:Ev; [|discriminate].
+  destruct (parse_path fid) as [[id ck]|] eqn:Ep; [|discriminate].
+  injection H as <- <- <-. repeat split; auto; try discriminate.
+  exists vol, id, ck. rewrite Ev. auto.
 Qed.
 
 Definition is_proceed (o : hresult) : bool := match o with Proceed _ _ _ => true | _ => false end.
@@ -369,59 +368,90 @@ Qed.
 
 (* ---- "the claim names the target file", as numbers ---- *)
 
-(* PARTIAL (finding C34/0 excluded): the text the token had to repeat denotes, for the file id parser
-   ParseFileIdFromString, the volume and cookie the store operation is called with, and the needle id up
-   to the added _delta *)
+(* FULL (the former finding C34/0 is repaired): the text the token had to repeat denotes, for the file id
+   parser ParseFileIdFromString, the volume and cookie the store operation is called with, and the needle
+   id up to the added _delta - for every method *)
 Theorem proceed_names_target : forall tab cfg rq v f a,
-  handle tab cfg rq = Proceed v f a -> trig_delete_unparsed rq = false ->
+  handle tab cfg rq = Proceed v f a ->
   exists vol id ck d, claim_den (v ++ "," ++ strip_suffix f) = Some (vol, id, ck) /\
                       a = (vol, ((id + d) mod 2 ^ 64)%N, ck).
 Proof.
-  intros tab cfg rq v f a H Ht. apply proceed_authorized in H.
-  destruct H as [Hp [_ [Hnd [_ [Hd _]]]]].
-  destruct (is_delete (rq_method rq)) eqn:Ed.
-  - unfold trig_delete_unparsed in Ht. rewrite Ed, Hp in Ht. simpl in Ht.
-    unfold request_den in Ht. rewrite Hp in Ht.
-    destruct (parse_vid v) as [vol|] eqn:Ev; [|discriminate].
-    destruct (parse_nic (strip_suffix f)) as [[id ck]|] eqn:En; [|discriminate].
-    destruct (parse_path_st_base f id ck En) as [d Hst].
-    exists vol, id, ck, d. split; [apply claim_den_app; assumption|].
-    rewrite (Hd eq_refl), Hst. reflexivity.
-  - destruct (Hnd eq_refl) as [vol [id' [ck [Ev [Epp ->]]]]].
-    unfold parse_path in Epp. destruct (parse_path_st f) as [st ok] eqn:Est.
-    destruct ok; [|discriminate]. injection Epp as ->.
-    destruct (parse_path_st_ok f _ Est) as [id [ck0 [d [En Hst]]]]. injection Hst as -> ->.
-    exists vol, id, ck0, d. split; [apply claim_den_app; assumption|reflexivity].
+  intros tab cfg rq v f a H. apply proceed_authorized in H.
+  destruct H as [Hp [_ [Hnd _]]].
+  destruct Hnd as [vol [id' [ck [Ev [Epp ->]]]]].
+  unfold parse_path in Epp. destruct (parse_path_st f) as [st ok] eqn:Est.
+  destruct ok; [|discriminate]. injection Epp as ->.
+  destruct (parse_path_st_ok f _ Est) as [id [ck0 [d [En Hst]]]]. injection Hst as -> ->.
+  exists vol, id, ck0, d. split; [apply claim_den_app; assumption|reflexivity].
 Qed.
 
 (* with a token: its claim denotes the addressed volume, cookie and (up to the delta) needle *)
 Theorem accept_names_target : forall tab cfg rq v f a,
   key_for cfg (is_write_method (rq_method rq)) <> "" ->
-  handle tab cfg rq = Proceed v f a -> trig_delete_unparsed rq = false ->
+  handle tab cfg rq = Proceed v f a ->
   exists t vol id ck d, lookup (get_jwt rq) tab = Some t /\
      decode_ok (key_for cfg (is_write_method (rq_method rq))) t = true /\
      claim_den (t_fid t) = Some (vol, id, ck) /\ a = (vol, ((id + d) mod 2 ^ 64)%N, ck).
 Proof.
-  intros tab cfg rq v f a Hk H Ht.
+  intros tab cfg rq v f a Hk H.
   destruct (accept_sound tab cfg rq v f a Hk H) as [t [H1 [H2 [H3 [H4 [H5 [H6 [H7 [H8 H9]]]]]]]]].
-  destruct (proceed_names_target tab cfg rq v f a H Ht) as [vol [id [ck [d [Hc Ha]]]]].
+  destruct (proceed_names_target tab cfg rq v f a H) as [vol [id [ck [d [Hc Ha]]]]].
   exists t, vol, id, ck, d. repeat split; auto.
   - unfold decode_ok. rewrite H3, H4, H5, H6, H7, H8, String.eqb_refl. reflexivity.
   - rewrite H9. assumption.
 Qed.
 
-(* a file id without a _suffix (reads and uploads): the claim denotes exactly the addressed needle *)
+(* the negation of the formerly refuted statement: under a configured key the store is never reached with
+   a token whose claim denotes no file *)
+Corollary accept_claim_denotes : forall tab cfg rq v f a,
+  key_for cfg (is_write_method (rq_method rq)) <> "" ->
+  handle tab cfg rq = Proceed v f a ->
+  exists t, lookup (get_jwt rq) tab = Some t /\ claim_den (t_fid t) <> None.
+Proof.
+  intros tab cfg rq v f a Hk H.
+  destruct (accept_names_target tab cfg rq v f a Hk H) as [t [vol [id [ck [d [Hl [_ [Hc _]]]]]]]].
+  exists t. split; [assumption|]. rewrite Hc. discriminate.
+Qed.
+
+(* a file id without a _suffix (every method): the claim denotes exactly the addressed needle *)
 Theorem proceed_names_exact : forall tab cfg rq v f a,
-  handle tab cfg rq = Proceed v f a -> is_delete (rq_method rq) = false -> no_us f = true ->
+  handle tab cfg rq = Proceed v f a -> no_us f = true ->
   claim_den (v ++ "," ++ strip_suffix f) = Some a.
 Proof.
-  intros tab cfg rq v f a H Hd Hn. apply proceed_authorized in H.
-  destruct H as [_ [_ [Hnd _]]]. destruct (Hnd Hd) as [vol [id [ck [Ev [Ep ->]]]]].
+  intros tab cfg rq v f a H Hn. apply proceed_authorized in H.
+  destruct H as [_ [_ [Hnd _]]]. destruct Hnd as [vol [id [ck [Ev [Ep ->]]]]].
   rewrite (strip_suffix_plain f Hn). apply claim_den_app; [assumption|].
   apply parse_path_plain; assumption.
 Qed.
 
-(* ---- finding C34/0: DeleteHandler ignores the parse errors ---- *)
+(* the repair in DeleteHandler (as for reads): a path whose volume id or file id does not parse never
+   reaches the store - 401 when the check fails, else 400 *)
+Theorem unparsed_not_proceed : forall tab cfg rq v f,
+  parse_url_path (rq_path rq) = Some (v, f) ->
+  parse_vid v = None \/ parse_path f = None ->
+  is_proceed (handle tab cfg rq) = false.
+Proof.
+  intros tab cfg rq v f Hp Hu.
+  destruct (handle tab cfg rq) as [| | | |v' f' a] eqn:Eh; try reflexivity.
+  apply proceed_authorized in Eh. destruct Eh as [Hp' [_ [[vol [id [ck [Ev [Ep _]]]]] _]]].
+  rewrite Hp in Hp'. injection Hp' as <- <-.
+  destruct Hu as [Hu|Hu]; congruence.
+Qed.
+
+Theorem delete_unparsed_bad_request : forall tab cfg rq v f,
+  rq_method rq = DELETE -> rq_public rq = false -> whitelist_blocks cfg rq = false ->
+  parse_url_path (rq_path rq) = Some (v, f) ->
+  check_jwt tab cfg true rq v f = true ->
+  parse_vid v = None \/ parse_path f = None ->
+  handle tab cfg rq = BadRequest.
+Proof.
+  intros tab cfg rq v f Hm Hpub Hwl Hp Hc Hu. unfold handle. rewrite Hm, Hpub, Hwl.
+  unfold delete. rewrite Hp, Hc. simpl.
+  destruct (parse_vid v) as [vol|]; [|reflexivity].
+  destruct Hu as [Hu|Hu]; [discriminate|]. rewrite Hu. reflexivity.
+Qed.
+
+(* ---- the former finding C34/0: DeleteHandler ignored the parse errors ---- *)
 Definition w_key : string := "wkey".
 Definition mk_tok (claim : string) : token :=
   {| t_wellformed := true; t_alg := AlgHMAC; t_signed_with := w_key; t_exp_ok := true; t_nbf_ok := true;
@@ -434,26 +464,17 @@ Definition mk_rq (m : meth) (path : string) : request :=
 Definition r_rq : request := mk_rq DELETE "/x3,01637037d6".
 Definition r_tab : toktab := [("T", mk_tok "x3,01637037d6")].
 
-(* the store is reached although the only token's claim denotes no file at all *)
-Theorem names_target_refuted : exists tab cfg rq v f a,
-  key_for cfg (is_write_method (rq_method rq)) <> "" /\
-  handle tab cfg rq = Proceed v f a /\
-  forall t, lookup (get_jwt rq) tab = Some t -> claim_den (t_fid t) = None.
-Proof.
-  exists r_tab, w_cfg, r_rq, "x3", "01637037d6", (0, 1, 1668298710)%N.
-  split; [discriminate|]. split; [vm_compute; reflexivity|].
-  intros t H. vm_compute in H. injection H as <-. vm_compute. reflexivity.
-Qed.
-
-(* the run: volume 0 stands in for "x3"; with a volume 0 holding needle 1 the needle is deleted; an
-   unparsable file id reaches the store as needle 0 / cookie 0 and is answered 404 from there *)
-Example refuted_run :
-  trig_delete_unparsed r_rq = true /\
-  handle r_tab w_cfg r_rq = Proceed "x3" "01637037d6" (0, 1, 1668298710)%N /\
+(* the former witnesses: a token whose claim repeats the unparsable text passes the (textual) check, and
+   the request is answered 400 before the store; volume 0 / needle 1 stays; the same on GET and PUT *)
+Example repaired_delete_witness :
+  check_jwt r_tab w_cfg true r_rq "x3" "01637037d6" = true /\
+  claim_den "x3,01637037d6" = None /\
+  handle r_tab w_cfg r_rq = BadRequest /\
   store_step (handle r_tab w_cfg r_rq) DELETE
     {| w_vols := [0%N; 3%N]; w_live := [{| n_vol := 0; n_id := 1; n_ck := 1668298710; n_content := 1 |}] |}
-  = {| e_status := 202; e_live := []; e_disclosed := [] |} /\
-  handle [("T", mk_tok "3,zz637037d6")] w_cfg (mk_rq DELETE "/3,zz637037d6") = Proceed "3" "zz637037d6" (3, 0, 0)%N /\
+  = {| e_status := 400; e_live := [{| n_vol := 0; n_id := 1; n_ck := 1668298710; n_content := 1 |}]; e_disclosed := [] |} /\
+  handle [("T", mk_tok "3,zz637037d6")] w_cfg (mk_rq DELETE "/3,zz637037d6") = BadRequest /\
+  handle [("T", mk_tok "3,01637037d6")] w_cfg (mk_rq DELETE "/3,01637037d6_x") = BadRequest /\
   handle r_tab w_cfg (mk_rq GET "/x3,01637037d6") = BadRequest /\
   handle r_tab {| write_key := ""; read_key := w_key; wl_active := false |} (mk_rq GET "/x3,01637037d6") = BadRequest /\
   handle r_tab w_cfg (mk_rq PUT "/x3,01637037d6") = BadRequest.
@@ -479,7 +500,6 @@ Example accept_example :
   let up := mk_rq PUT "/3,01637037d6.txt" in
   handle [("T", w_tok)] w_cfg rq = Proceed "3" "01637037d6_1" (3, 2, 1668298710)%N /\
   handle [("T", w_tok)] w_cfg up = Proceed "3" "01637037d6" (3, 1, 1668298710)%N /\
-  trig_delete_unparsed rq = false /\
   claim_den "3,01637037d6" = Some (3, 1, 1668298710)%N /\ claim_den "03,01637037d6" = Some (3, 1, 1668298710)%N /\
   handle [("T", mk_tok "03,01637037d6")] w_cfg rq = Unauthorized /\
   handle [("T", {| t_wellformed := true; t_alg := AlgNone; t_signed_with := ""; t_exp_ok := true; t_nbf_ok := true;
